@@ -1,14 +1,22 @@
-use proc_macro2::{Ident, Span, TokenStream, TokenTree};
-use quote::ToTokens;
-use syn::{ext::IdentExt, DeriveInput, Path, Type};
+use proc_macro2::{Ident, TokenStream};
+use syn::{DeriveInput, Path, Type};
+
+use crate::common::fresh::{fresh_ident, trait_attribute_tokens};
+
+/// The name of a helper item of the generated `fmt`: the paths of the custom methods are written
+/// in the same body, so it must not occur in them.
+#[inline]
+pub(crate) fn helper_ident(ast: &DeriveInput, base: &str) -> Ident {
+    fresh_ident(&trait_attribute_tokens(ast, "Debug"), base, '_')
+}
 
 #[inline]
-pub(crate) fn create_debug_map_builder() -> proc_macro2::TokenStream {
+pub(crate) fn create_debug_map_builder(raw_string: &Ident) -> proc_macro2::TokenStream {
     quote!(
         #[allow(non_camel_case_types)] // We're using __ to help avoid clashes.
-        struct Educe__RawString(&'static str);
+        struct #raw_string(&'static str);
 
-        impl ::core::fmt::Debug for Educe__RawString {
+        impl ::core::fmt::Debug for #raw_string {
             #[inline]
             fn fmt(&self, f: &mut ::core::fmt::Formatter<'_>) -> ::core::fmt::Result {
                 f.write_str(self.0)
@@ -48,9 +56,9 @@ pub(crate) fn create_format_arg(
     format_method: &Path,
     field_expr: proc_macro2::TokenStream,
 ) -> proc_macro2::TokenStream {
-    // The wrapper is an item, so its name is visible to everything the user wrote inside the
-    // type (the field type, the method path): pick one that occurs nowhere in it.
-    let wrapper = fresh_ident(ast, "Educe__DebugField");
+    // The wrapper is an item, so its name is visible to the method path in the closure: pick one
+    // that occurs in none of the Debug attributes.
+    let wrapper = helper_ident(ast, "Educe__DebugField");
 
     // The method is called from a closure in the body of `fmt` itself: there the path means what
     // the user wrote (`Self`, the generic parameters, the bounds of this impl), and the field
@@ -80,25 +88,4 @@ pub(crate) fn create_format_arg(
             )
         };
     )
-}
-
-/// An identifier starting with `base` that does not occur anywhere in the derive input.
-fn fresh_ident(ast: &DeriveInput, base: &str) -> Ident {
-    fn contains(token_stream: TokenStream, name: &str) -> bool {
-        token_stream.into_iter().any(|token| match token {
-            TokenTree::Ident(ident) => ident.unraw() == name,
-            TokenTree::Group(group) => contains(group.stream(), name),
-            // paths may be given as string literals
-            TokenTree::Literal(literal) => literal.to_string().contains(name),
-            _ => false,
-        })
-    }
-
-    let mut name = String::from(base);
-
-    while contains(ast.to_token_stream(), &name) {
-        name.push('_');
-    }
-
-    Ident::new(&name, Span::mixed_site())
 }
